@@ -770,13 +770,16 @@ class Check(PropertyCheck):
         return True
 
     @staticmethod
-    def _converted_rows(case):
+    def _converted_rows(case):  # noqa: C901
         """indices (among the written regions) whose ROTANG value astropy converts to the column unit."""
         w = [s for s in case['regions'] if not s['sky'] and s['cls'] in REPRESENTABLE]
         if not w:
             return set(), None
         has = lambda s: s['cls'] in HAS_ANGLE
         col = (w[0].get('aunit') or 'deg') if has(w[0]) else 'deg'
+        v = os.environ.get('C12_VARIANT', '').split(',')
+        if len(v) == 5 and v[4].strip() == '1':      # testing aid: the F122-patched writer always writes degrees
+            col = 'deg'
         return {i for i, s in enumerate(w) if has(s) and (s.get('aunit') or 'deg') != col}, col
 
     def equal(self, case, real, model):
